@@ -35,6 +35,10 @@ def gen(tier):
     three = [(['c3', 'id'], ['c1', 'seq'], ['blk', 'c3']), (['c3', 'c1', 'id'], ['dw', 'c5', 'id'], ['c1', 'nest', 'id', 'c3'])]
     for a, b, c in three:
         out.append({'cin': 3, 'size': 6, 'stages': [pre, block(a), block(b), {'op': 'pool'}, block(c)], 'head': 'gaplin'})
+    # fixed layers whose qualified names EXTEND the name of a choice block (blocks.s1 next to blocks.s1_pw and blocks.s10)
+    out.append({'cin': 3, 'size': 6, 'stages': [pre, block(['c3', 'c1', 'id']), {'op': 'conv', 'cout': 4, 'k': 1, 'alias': 's1_pw'},
+                                                 {'op': 'conv', 'cout': 3, 'alias': 's10'}], 'head': 'flatlin'})
+    out.append({'cin': 3, 'size': 6, 'stages': [pre, block(['seq', 'c5'], twice=True), {'op': 'conv', 'cout': 4, 'k': 1, 'alias': 's1x'}], 'head': 'gaplin'})
     if tier == 'thorough':
         for n in (4,):
             for br in itertools.combinations(kinds, n):
